@@ -73,9 +73,16 @@ func (r *entityReaderWriters) accessorAt(mime string) (EntityReaderWriter, bool)
 	if !ok {
 		// retry with reverse lookup
 		// more expensive but we are in an exceptional situation anyway
+		// if several registered MIME types occur then take the one that comes first (and is the longest),
+		// so that the result does not depend on the iteration order of the map
+		firstAt, firstMime := -1, ""
 		for k, v := range r.accessors {
-			if strings.Contains(mime, k) {
-				return v, true
+			at := strings.Index(mime, k)
+			if at == -1 {
+				continue
+			}
+			if firstAt == -1 || at < firstAt || (at == firstAt && len(k) > len(firstMime)) {
+				firstAt, firstMime, er, ok = at, k, v, true
 			}
 		}
 	}
